@@ -16,6 +16,8 @@ import Adsg.Model.ConnGraph
 import Adsg.Model.Identity
 import Adsg.Model.TimeLimiter
 import Adsg.Model.Sup
+import Adsg.Model.Fast
+import Adsg.Model.Proc
 open Lean Adsg
 
 namespace Drv
@@ -392,6 +394,39 @@ def opSupResolve (j : Json) : R Json := do
                 ("result", jOpt (fun N => jList jNat (sortNat N)) (resolve spec X r))])
   return Json.mkObj [("init_ok", Json.bool (initOK spec)), ("results", Json.arr outs.toArray)]
 
+/-! ### fast encoder -/
+
+def opNeighborhood (j : Json) : R Json := do
+  let nOpts ← listOf nat (← field j "n_opts")
+  let x ← listOf nat (← field j "x")
+  let fx ← listOf bool (← field j "fixed")
+  return jList (jList jNat) (neighborhood nOpts x fx)
+
+/-! ### processor state machine -/
+
+def vkind (j : Json) : R Adsg.Proc.VKind := do
+  match ← str j with
+  | "sel" => return .sel
+  | "dv" => return .dv
+  | "conn" => return .conn
+  | s => throw s!"bad kind {s}"
+
+/-- rows of the problem restricted by a fixed map, and the outcome of the fix operations themselves -/
+def opRestrict (j : Json) : R Json := do
+  let kinds ← listOf vkind (← field j "kinds")
+  let nOpts ← listOf nat (← field j "n_opts")
+  let rows ← listOf (listOf (optOf nat)) (← field j "rows")
+  let P : Adsg.Proc.Problem := { kinds := kinds, nOpts := nOpts, rows := rows, feasible := fun _ => true, cands := fun _ => [] }
+  let ops ← listOf (fun o => do
+      match ← str (← field o "op") with
+      | "fix" => return Adsg.Proc.Op.fix (← nat (← field o "i")) (← nat (← field o "v"))
+      | "free" => return Adsg.Proc.Op.free (← nat (← field o "i"))
+      | s => throw s!"bad op {s}") (← field j "ops")
+  let (st, outs) := Adsg.Proc.runOps P (Adsg.Proc.init P) ops
+  return Json.mkObj [("fixed", jList (fun p : Nat × Nat => Json.arr #[jNat p.1, jNat p.2]) st.fixed),
+    ("rejected", jList (fun o => Json.bool (o == Adsg.Proc.Out.rejected)) outs),
+    ("rows", jList (jList (jOpt jNat)) (Adsg.Proc.restrictRows P st.fixed))]
+
 def dispatch (op : String) (j : Json) : R Json :=
   match op with
   | "ping" => return Json.str "pong"
@@ -409,6 +444,8 @@ def dispatch (op : String) (j : Json) : R Json :=
   | "canon_eq" => opCanonEq j
   | "tl_accepts" => opTlAccepts j
   | "sup_resolve" => opSupResolve j
+  | "neighborhood" => opNeighborhood j
+  | "restrict" => opRestrict j
   | "get_best" => opGetBest j
   | "correct_value" => opCorrect j
   | "decode_dv" => opDecodeDV j
